@@ -46,6 +46,7 @@ Names == <<
   "C14_UsedIsSum", "C14_WorkerIsSum", "C14_ShardPledgedIsSum", "C14_PoolIsSum",
   "C15_Placement",
   "C17_BindingFunctional", "C17_ListMatchesBinding", "C17_SidPayAddrBound", "C17_KidInjective", "C17_BindingProven", "C17_PayAddrChange",
+  "C19_OnlyFishmen", "C19_FaultNamesLiveShard", "C19_NoCollateralEffect", "C19_PenaltyBounded",
   "C20_SuperImpliesRequirements", "C20_PromotionNeedsStatus",
   "C16_IdsFresh", "C16_OneInFlight", "C16_BaseIsLatest", "C16_HistoryChain" >>
 
@@ -105,6 +106,10 @@ Verdict(name, x, g) ==
     [] name = "C17_KidInjective"         -> V(TRUE, C17_KidInjective(s))
     [] name = "C17_BindingProven"        -> V(IsTx(x), C17_BindingProven(x))
     [] name = "C17_PayAddrChange"        -> V(IsTx(x), C17_PayAddrChange(x, g.cfg))
+    [] name = "C19_OnlyFishmen"          -> V(C19_app(x), C19_OnlyFishmen(x, g.cfg))
+    [] name = "C19_FaultNamesLiveShard"  -> V(C19_app(x), C19_FaultNamesLiveShard(x))
+    [] name = "C19_NoCollateralEffect"   -> V(Kind(x) \in FaultKinds, C19_NoCollateralEffect(x))
+    [] name = "C19_PenaltyBounded"       -> V(Kind(x) \in FaultKinds, C19_PenaltyBounded(x))
     [] name = "C20_SuperImpliesRequirements" -> V(TRUE, C20_SuperImpliesRequirements(s, g.cfg))
     [] name = "C20_PromotionNeedsStatus" -> V(IsTx(x), C20_PromotionNeedsStatus(x, g.cfg))
     [] name = "C16_IdsFresh"             -> V(TRUE, C16_IdsFresh(x))
